@@ -16,6 +16,7 @@ type Env struct {
 	c      *FnCtx
 	vars   map[string]Val
 	lookup func(name string) (Val, bool)
+	lookupAddr func(name string) (Val, bool) // address of an alloc-backed source variable
 	cur    *State
 	old    *State
 	pkg    *types.Package
@@ -193,6 +194,13 @@ func (e *Env) evalAddr(x ast.Expr) (Val, bool) {
 			return mkPtr(types.NewPointer(el), el, 0, s.L[0], Add(s.L[1], i)), true
 		}
 	case *ast.Ident:
+		if e.lookupAddr != nil {
+			if _, shadow := e.vars[t.Name]; !shadow {
+				if p, ok := e.lookupAddr(t.Name); ok {
+					return p, true
+				}
+			}
+		}
 		if o := e.lookupGlobalVar(t.Name); o != nil {
 			if _, isVar := e.resolveIdent(t.Name); !isVar {
 				return e.c.globalPtr(o), true
